@@ -229,6 +229,7 @@ class Models(object):
         name = "%s.%s" % (base, attr) if base else attr
         table = {
             "six.MAXSIZE": VT(tm.I(2 ** 63 - 1)),
+            "six.string_types": VTuple([VClass("str")]),
             "six.iteritems": VModel("six.iteritems", m_iteritems),
             "six.itervalues": VModel("six.itervalues", m_itervalues),
             "six.raise_from": VModel("six.raise_from", m_raise_from),
@@ -266,7 +267,7 @@ class Models(object):
     def builtin(self, name):
         table = {
             "len": m_len, "min": m_min, "max": m_max, "isinstance": m_isinstance, "issubclass": m_issubclass,
-            "str": m_str, "int": m_int, "range": m_range, "enumerate": m_enumerate, "type": m_type, "list": m_list,
+            "str": m_str, "int": m_int, "dict": m_dict, "range": m_range, "enumerate": m_enumerate, "type": m_type, "list": m_list,
             "iter": m_iter, "sum": m_unsupported("sum"), "any": m_unsupported("any"), "getattr": m_unsupported("getattr"),
             "dir": m_unsupported("dir"), "set": m_unsupported("set"), "hash": m_unsupported("hash"),
         }
@@ -447,11 +448,19 @@ class Models(object):
         # collect appended element per path
         target_name = None
         paths = []
+        flat = None
         for (what, s2, tag, v) in results:
             if what == "exit":
                 continue
             appended = None
             for name, lv in before.items():
+                cur = s2.env.get(name)
+                if isinstance(cur, VRepList) and cur is not lv:
+                    # the body ran an inner map loop appending to this list: flat-map (list of lists, flattened)
+                    if lens[name] != 0:
+                        raise Unsupported("flat-map into a non-empty list")
+                    flat = (name, cur, s2)
+                    continue
                 items = s2.get(lv, "items")
                 extra = len(items) - lens[name]
                 if extra == 1:
@@ -471,28 +480,59 @@ class Models(object):
         for (what, s2, tag, v) in results:
             if what == "exit":
                 res.append((s2.assume(tm.lt(0, it.length)), tag, v))
-        if target_name is None:
-            # pure loop (no state): continue after it
-            res.append((st, "ok", None))
+        if flat is not None:
+            if target_name is not None:
+                raise Unsupported("map loop both appends and flat-maps")
+            name, inner, s2 = flat
+            newlist = VRepList(inner.rep, tm.fresh("flatlen", INT), tag="flatmap")
+            newlist.alts = [(tuple(s2.pc[len(s0.pc):]) + tuple(c_), el, s_) for (c_, el, s_) in getattr(inner, "alts", [])]
+            newlist.source = it
+            newlist.inner_source = getattr(inner, "source", None)
+            st2 = s2.fork()
+            st2.env = dict(st.env)
+            st2.env[name] = newlist
+            st2 = st2.assume(tm.le(0, newlist.length))
+            res.append((st2, "ok", None))
             return res
-        if any(el is None for (_, el) in paths):
-            raise Unsupported("map loop path without append")
+        if target_name is None:
+            # no list is built.  Heap effects on the generic element are pointwise effects on every element: with a single
+            # normal path its final state is the state after the loop (its path facts hold for every element, the others
+            # having left through an exceptional exit); without any heap effect the state is simply unchanged.
+            normal = [(s2, el) for (s2, el) in paths]
+            changed = [s2 for (s2, _) in normal if s2.heap != s0.heap]
+            if not changed:
+                res.append((st, "ok", None))
+            elif len(normal) == 1:
+                s2 = normal[0][0].fork()
+                s2.env = dict(st.env)
+                res.append((s2, "ok", None))   # (facts about the generic element describe the elements that exist)
+            else:
+                raise Unsupported("map loop with several normal paths and heap effects")
+            return res
         if lens[target_name] != 0:
             raise Unsupported("map loop target not empty before the loop")
-        # result list: pointwise, one generic element per path (kept as alternatives)
+        # result list: pointwise, one generic element per appending path (a path that appends nothing filters the
+        # element out); kept as alternatives with their path conditions
         alts = []
         base = len(s0.pc)
         for (s2, el) in paths:
-            alts.append((tuple(s2.pc[base:]), el, s2))
-        newlist = VRepList(None, it.length, tag="map")
+            if el is not None:
+                alts.append((tuple(s2.pc[base:]), el, s2))
+        filtered = any(el is None for (_, el) in paths)
+        newlist = VRepList(None, tm.fresh("maplen", INT) if filtered else it.length, tag="map")
         newlist.alts = alts          # [(conds, element value, state with its heap)]
         newlist.source = it
         st2 = st.fork()
+        if filtered:
+            st2 = st2.assume(tm.le(0, newlist.length), tm.le(newlist.length, it.length))
         merger = getattr(self, "merge_alts", None)
         if merger is not None:
             mg = merger(ex, st2, alts)
             if mg is not None:
                 st2, newlist.rep = mg
+        if newlist.rep is None and len(alts) == 1:
+            newlist.rep = alts[0][1]
+            newlist.conds = list(alts[0][0])
         # make heap objects created in the body paths reachable
         for (_, _, s2) in alts:
             for oid, d in s2.heap.items():
@@ -714,6 +754,8 @@ def m_list(ex, st, fr, args, kwargs):
         return [(st, "ok", v)]
     if isinstance(v, VRepList):
         return [(st, "ok", v)]
+    if isinstance(v, VT) and v.py == "list":
+        return [(st, "ok", tag_fresh(VT(v.t, "list"), "shallow"))]   # list(x): a new list sharing the elements
     hook = getattr(ex.models, "list_of", None)
     if hook is not None:
         r = hook(ex, st, fr, v)
@@ -736,10 +778,38 @@ def m_raise_from(ex, st, fr, args, kwargs):
     return [(st, "raise", args[0])]
 
 
+def tag_fresh(v, how):
+    """ownership ghost: how a container value was obtained -- 'deep' (copy.deepcopy: shares nothing mutable with its
+    source), 'shallow' (dict(x) / list(x) / x[:] / x.copy(): a new container sharing its values); untagged = aliased"""
+    try:
+        v.fresh = how
+    except AttributeError:
+        pass
+    return v
+
+
 def m_deepcopy(ex, st, fr, args, kwargs):
     ex.used_models.add("D-COPY")
     (v,) = args
-    return [ex.models.deepcopy(ex, st, v)]
+    (s2, tag, out) = ex.models.deepcopy(ex, st, v)
+    if tag == "ok":
+        if out is v and isinstance(v, VT):
+            out = VT(v.t, v.py)       # a value-modelled container: same abstract value, new identity for the ghost
+        tag_fresh(out, "deep")
+    return [(s2, tag, out)]
+
+
+def m_dict(ex, st, fr, args, kwargs):
+    if not args:
+        st, d = ex.new_dict(st, {})
+        return [(st, "ok", tag_fresh(d, "deep"))]
+    (v,) = args
+    if isinstance(v, VDict):
+        st, d = ex.new_dict(st, dict(st.get(v, "items")))
+        if st.get(v, "arr") is not None:
+            st = st.set(d, "arr", st.get(v, "arr"))
+        return [(st, "ok", tag_fresh(d, "shallow"))]
+    raise Unsupported("dict(%r)" % (v,))
 
 
 def m_warn(ex, st, fr, args, kwargs):
@@ -978,6 +1048,8 @@ def inst_seq(ex, st, fr, args, kwargs):
 # ---------------------------------------------------------------------- re  (D-RE)
 def m_re_compile(ex, st, fr, args, kwargs):
     ex.used_models.add("D-RE")
+    if isinstance(args[0], VT) and tm.is_const(args[0].t) and tm.cval(args[0].t) == "\\[(\\d*)\\]":
+        return [(st, "ok", VObj("CitRe"))]   # the citation pattern has its own assumed contract (D-RE-CIT)
     o = VObj("RePattern")
     st = st.set(o, "pattern", args[0])
     return [(st, "ok", o)]
